@@ -600,7 +600,10 @@ func (d decoder) rr(s *cryptobyte.String) (RR, error) {
 	}
 	switch rr.Type {
 	case 1: // A
-		v := net.IP(data)
+		// The decoded values are views of the message. Each one ends where
+		// its data ends, so that appending to it cannot write into the bytes
+		// that follow it in the message (the next field or record).
+		v := net.IP(slices.Clip(data))
 		if len(v) != 4 {
 			return rr, ErrDecodeError
 		}
@@ -634,7 +637,7 @@ func (d decoder) rr(s *cryptobyte.String) (RR, error) {
 		}
 		rr.Data = TXT(result)
 	case 28: // AAAA
-		v := net.IP(data)
+		v := net.IP(slices.Clip(data))
 		if len(v) != 16 {
 			return rr, ErrDecodeError
 		}
@@ -890,20 +893,24 @@ func (d decoder) https(b []byte) (HTTPS, error) {
 				if !value.ReadBytes(&ip, 4) {
 					return result, ErrDecodeError
 				}
-				result.IPv4Hint = append(result.IPv4Hint, net.IP(ip))
+				result.IPv4Hint = append(result.IPv4Hint, net.IP(slices.Clip(ip)))
 			}
 		case 5: // ECH
-			result.ECH = value
+			result.ECH = slices.Clip(value)
 		case 6: // ipv6hint
 			for !value.Empty() {
 				var ip []byte
 				if !value.ReadBytes(&ip, 16) {
 					return result, ErrDecodeError
 				}
-				result.IPv6Hint = append(result.IPv6Hint, net.IP(ip))
+				result.IPv6Hint = append(result.IPv6Hint, net.IP(slices.Clip(ip)))
 			}
 		}
 	}
+	// The lists are shared by everybody who is handed this record.
+	result.ALPN = slices.Clip(result.ALPN)
+	result.IPv4Hint = slices.Clip(result.IPv4Hint)
+	result.IPv6Hint = slices.Clip(result.IPv6Hint)
 	return result, nil
 }
 
